@@ -33,7 +33,7 @@ CLAIMED = {
         "DESIGN.md §6 C20",
     ),
     "C04": (
-        "runtime monitor: real break_line_single_attempt on generated lists; online check of the debug::Logger trace (every feasible break's badness/penalty/demerits, every new active node) and optimality/feasibility/looseness of the result against an independent evaluator written from the definitions (DP over breakpoint x line count x fitness class, cross-checked by brute-force enumeration of all break subsets on small lists)",
+        "runtime monitor: real break_line_single_attempt on generated lists; online check of the debug::Logger trace (every feasible break's badness/penalty/demerits, every new active node) and optimality/feasibility/looseness of the result against an independent evaluator written from the definitions (DP over breakpoint x line count x fitness class, cross-checked by brute-force enumeration of all break subsets on small lists); libFuzzer stage (thorough tier) whose inputs are decided by the same oracle",
         "Held on the executions produced: exhaustive lists of length <=6 (quick) / <=7 (thorough) over a 7-item alphabet, 1.3e6 / 3e7 random and hostile lists (kerns, fil glue, discretionaries, penalties +-10000, 1-4 line widths, tolerances, negative adj_demerits, looseness -2..2) and the book excerpts in cmr10 at random widths. Non-monotone instances (overfull(a,b) not upward closed in b) are skipped and counted, as the property states.",
         "Trusts our evaluator of TeX §817-875, calibrated against all 28 TeX \\tracingparagraphs logs in the repository (4450 feasible breaks, 2302 nodes identical); DP and brute force must agree or the case is INCONCLUSIVE; ties between equal-demerit sequences accepted either way.",
         "DESIGN.md §6 C04",
@@ -45,7 +45,7 @@ CLAIMED = {
         "DESIGN.md §6 C15",
     ),
     "C02": (
-        "runtime monitor: generated \\def specs and calls run in the real VM; bound arguments and expansion observed through the public post_macro_expansion_hook, plus the delivered character stream, run outcome and group depth; compared with a transcription of macro_call (TeX §389-399) cross-checked by a second declarative formulation of argument binding",
+        "runtime monitor: generated \\def specs and calls run in the real VM; bound arguments and expansion observed through the public post_macro_expansion_hook, plus the delivered character stream, run outcome and group depth; compared with a transcription of macro_call (TeX §389-399) cross-checked by a second declarative formulation of argument binding; libFuzzer stage (thorough tier) whose inputs are decided by the same oracle",
         "Held on the executions produced: exhaustive product of prefixes x 0-2 parameters x 5 delimiter kinds x #{ x 8 replacement texts x all tuples of 12/17 argument shapes (~3e5 calls), 3-parameter specs, and random specs with up to 9 parameters (quick 4.2e5 calls, thorough 6.6e6).",
         "Trusts our transcription of TeX §389-399 and §473-477, calibrated on 27 rows of the repository's def.rs/expansion.rs tables and the TeXbook p.203 example; arguments never contain the delimiter at depth 0, \\par or unbalanced braces (the quantifier).",
         "DESIGN.md §6 C02",
@@ -57,7 +57,7 @@ CLAIMED = {
         "DESIGN.md §6 C03",
     ),
     "C05": (
-        "runtime monitor: real CompiledProgram::compile + run on generated lig/kern programs and words, compared with three independent formulations (cursor interpreter of the raw program, label-by-label transcription of TeX §1034-1040, TFtoPL §88-95 recursive pair evaluation) that must agree with each other; loop reports checked in both directions; conservation of the word",
+        "runtime monitor: real CompiledProgram::compile + run on generated lig/kern programs and words, compared with three independent formulations (cursor interpreter of the raw program, label-by-label transcription of TeX §1034-1040, TFtoPL §88-95 recursive pair evaluation) that must agree with each other; loop reports checked in both directions; conservation of the word; libFuzzer stage (thorough tier) whose inputs are decided by the same oracle",
         "Held on the executions produced: all 104 976 programs over {a,b} (thorough also 2 x 1.05e7 boundary-rule programs), 6e4 / 2e6 random programs over 3-5 letters with all eight ligature forms, SKIP/STOP chains and boundaries, every word of length <=4 per program plus random words, every corpus font on all character pairs, 83 hand-built TeX-verified cases node by node.",
         "The three models must agree or the case is INCONCLUSIVE; kern amounts go through our own store_scaled; TeX's lig_ptr bookkeeping and boundary flags are compared node by node only on the hand-built cases (DESIGN guard G).",
         "DESIGN.md §6 C05",
@@ -87,7 +87,7 @@ CLAIMED = {
         "DESIGN.md §6 C11",
     ),
     "C12": (
-        "runtime monitor, conservation checker: the horizontal list before and after the real break_line, the breakpoints and the produced vertical list are checked offline: text -> list spells the words with inter-word glue equal to a transcription of TeX §1041-1044; list -> lines by two formulations that must agree (exact expected content per line; cursor walk consuming each node exactly once in order); geometry, skips (§816/§886-887) and inter-line penalties (§890)",
+        "runtime monitor, conservation checker: the horizontal list before and after the real break_line, the breakpoints and the produced vertical list are checked offline: text -> list spells the words with inter-word glue equal to a transcription of TeX §1041-1044; list -> lines by two formulations that must agree (exact expected content per line; cursor walk consuming each node exactly once in order); geometry, skips (§816/§886-887) and inter-line penalties (§890); libFuzzer stage (thorough tier) whose inputs are decided by the same oracle",
         "Held on the executions produced: exhaustive space-factor words (2336) and lists of <=6 items (137 256), 1.5e5 / 3e6 random cmr10 texts with random \\spaceskip/\\xspaceskip/sfcodes/widths/indents/all 17 Knuth-Plass parameters (hyphenation on in 2/3), 3e5 / 6e6 hand-built lists with runs of glue/penalty/kern and discretionaries.",
         "Calibrated on the repository's 20-row spacing table and 29 TeX-generated goldens (509 line boxes); the hyphenator and the breaker's choice of breakpoints are black boxes here (C13/C14, C04); interline glue presence only; math/mark/insert/adjust nodes excluded (todo!() in hpack).",
         "DESIGN.md §6 C12",
